@@ -28,6 +28,10 @@ def cube_fn(cube):
             out.append(ctx.view.root == (EMPTY32 if r < 0 else bv(r, 32)))
         if 'h' in cube:
             out.append(ctx.sym['h'] == cube['h'])
+        for fld, arr in (('rl', 'L'), ('rr', 'R')):
+            if fld in cube:
+                v = ctx.view.pick(getattr(ctx.view, arr), ctx.view.root)
+                out.append(v == (EMPTY32 if cube[fld] < 0 else bv(cube[fld], 32)))
         if 'cnt' in cube:
             from .trees import count_in
             out.append(count_in(ctx.it) == cube['cnt'])
@@ -49,6 +53,20 @@ def make_cubes(kind, opname, N, max_expired):
         cubes = [dict(c, h=h) for c in cubes for h in range(1, N) if c['root'] >= 0]
     elif N >= 5 and opname not in ('is_empty',):
         cubes = [c for c in cubes if c['root'] < 0] + [dict(c, cnt=k) for c in cubes if c['root'] >= 0 for k in range(1, N)]
+    if False and N >= 6 and opname not in ('is_empty', 'value_by_index', 'value_by_index_mut', 'clear'):   # measured: 4x slower than the coarse split
+        # also fix the root's children: the top of the tree is concrete in every cube (exhaustive: EMPTY or any other slot)
+        out = []
+        for c in cubes:
+            if c['root'] < 0:
+                out.append(c)
+                continue
+            slots = [-1] + [x for x in range(1, N) if x != c['root']]
+            for rl in slots:
+                for rr in slots:
+                    if rl >= 0 and rl == rr:
+                        continue
+                    out.append(dict(c, rl=rl, rr=rr))
+        cubes = out
     if kind == 'key' and max_expired is not None and max_expired > 0 and opname not in ('clear', 'is_empty', 'is_part_of_the_tree'):
         cubes = [dict(c, nexp=e) for c in cubes for e in range(0, max_expired + 1) if not (c['root'] < 0 and e > 0)]
     return cubes
